@@ -266,7 +266,7 @@ def run_check(mod, tier, seed, procs=None):
         seen_keys = {}
         for v in new:
             seen_keys.setdefault(v['key'], []).append(v)
-        rdir = os.path.join(VERIF, 'replays', prop)
+        rdir = os.path.join(os.environ.get('VERIF_REPLAY_DIR') or os.path.join(VERIF, 'replays'), prop)
         os.makedirs(rdir, exist_ok=True)
         for key, vs in list(seen_keys.items())[:8]:
             v = vs[0]
